@@ -57,6 +57,8 @@ FIXED = [
     ('const', "start: x=@int y=`{x}` z=`7` $ ;"),
     # constants that interpolate text taken from the input (which may itself look like an interpolation)
     ('const-text', "start: y=/.*/ c=`{y}` ;"),
+    # constants that use a value which may be missing (an optional that did not match is None) or of another type
+    ('const-attr', "start: name=[/[a-z]+/] n=[@int] up=`{name.upper()}` k=`{n + 1}` s=`{name[0]}` $ ;"),
     ('const-multiline', "start: @:'b' (```two\n        lines```) ;\n\nother: x='b' c=```\n    a {x}\n      b``` ;"),
     ('const-text2', "@@whitespace :: ''\n\nstart: y=/[^;]*/ ';' c=`<{y}>` d=`{y}{y}` $ ;"),
     ('cut', "start: {'(' ~ @int ')' | @name}* $ ;"),
@@ -84,7 +86,7 @@ SEEDS = {
     'int-seq': ['1 -2 +3', '10'], 'uint-seq': ['1 2 3', '1_000 2'], 'float-seq': ['1.5, -2e3, 3', '0.5'], 'bool-seq': ['true False', 'false'],
     'name-seq': ['a b1 _c', 'abc'], 'meta-mix': ['1.5 2 true x -', 'a + 1'], 'meta-named': ['1:2:3.0:true:x'], 'meta-opt': ['1 true x 2.0', 'x'],
     'meta-choice': ['1u -1i 1.5f trueb xn'], 'meta-look': ['1 x 2.5 y'], 'eol-lines': ['ab\ncd\n', 'ab'], 'eol-mix': ['a\nb a\n', 'b'], 'eol-only': ['\n\nx', 'x'],
-    'kw': ['if a then b c', 'x y'], 'lr': ['(2*1)+3', '1+2*3-4', '((1))', 'a*(b+1)'], 'skipto': ['xx a yy 1', 'a'], 'const': ['5'], 'const-text': ['{y} ', 'x{y}', '{y!r}', 'abc', '{1+1}', '"{y}"'], 'const-multiline': ['b', 'b b'], 'const-text2': ['{y};', 'a{y}b;', 'ab;', '{y}{y};'], 'cut': ['(1) x (2)', 'x'],
+    'kw': ['if a then b c', 'x y'], 'lr': ['(2*1)+3', '1+2*3-4', '((1))', 'a*(b+1)'], 'skipto': ['xx a yy 1', 'a'], 'const': ['5'], 'const-text': ['{y} ', 'x{y}', '{y!r}', 'abc', '{1+1}', '"{y}"'], 'const-multiline': ['b', 'b b'], 'const-attr': ['', '  ', 'abc', 'abc 3', '3'], 'const-text2': ['{y};', 'a{y}b;', 'ab;', '{y}{y};'], 'cut': ['(1) x (2)', 'x'],
     'ws': ['1\n2\n', '1 \n'], 'comments': ['a (* c *) 1 # e\nb', 'a'], 'nows': ['1,2,true', '1'], 'ignorecase': ['SELECT a From b 1', 'x'],
     'namechars': ['let a-b 1 let $x', '1'], 'dot': ['abx', 'x'], 'join': ['1,2,3 a;b', '1'],
     'nested-list': ['[1,[2,3],[]]', '[]', '[[1]'], 'nested-block': ['a (b (c)) d', '()'], 'nested-expr': ['1;2;(3;4)', '(1'],
